@@ -207,6 +207,7 @@ func TestC07(t *testing.T) {
 		W := rapid.Int64Range(2, 6).Draw(rt, "window")
 		C := rapid.Int64Range(2, 5).Draw(rt, "check")
 		w := newC07World(c, W, C)
+		w.proofType = rapid.SampledFrom([]int64{0, 0, 0, 1, 2, -1}).Draw(rt, "proofType")
 		fail := func(sig, msg string) {
 			if sig != "" {
 				failf(rt, rec, sig, w.trace, "%s", msg)
